@@ -81,12 +81,33 @@ def fix_len(frame: bytes) -> bytes:
 # K_C02a
 # ------------------------------------------------------------------------------------------------
 
+class _ParseTimeout(BaseException):
+    pass
+
+
+DECODE_LIMIT = 8.0      # wall seconds for ONE frame of at most a few KiB (the real decoders need well under a millisecond)
+
+
 def eval_decode(args):
+    import signal
     table, fam, d, frame = args
     m, _, _ = _mods()
+
+    def on_alarm(_sig, _frm):
+        raise _ParseTimeout()
+    old = signal.signal(signal.SIGALRM, on_alarm)
+    signal.setitimer(signal.ITIMER_REAL, DECODE_LIMIT)
     t0 = time.perf_counter()
-    r = wc.impl_decode(m, table, fam, d, frame)
+    try:
+        r = wc.impl_decode(m, table, fam, d, frame)
+    except _ParseTimeout:
+        r = 'HANG'                      # parsing did not terminate: stopped by the harness
+    finally:
+        signal.setitimer(signal.ITIMER_REAL, 0)
+        signal.signal(signal.SIGALRM, old)
     dt = time.perf_counter() - t0
+    if '_ParseTimeout' in r:            # (the decode wrapper reports any BaseException as "fatal <class>")
+        r = 'HANG'
     return r, dt, wc.inflate_arg(frame, fam)
 
 
@@ -141,6 +162,13 @@ def eval_stream(case: dict) -> dict:
         net.peer_connections.append(by)
         await by.set_state(ConnectionState.CONNECTED)
         task = conn._reader_task
+        writes = [0]                    # messages the client wrote on this connection
+        _w = lw.write
+
+        def counting_write(data, _w=_w):
+            writes[0] += 1
+            return _w(data)
+        lw.write = counting_write
         stream = case['stream']
         pos = 0
         for seg in case['segments']:
@@ -152,9 +180,22 @@ def eval_stream(case: dict) -> dict:
             await simloop.settle()
         out['mid_task_done'] = task.done()
         out['mid_state'] = conn.state.name
-        rw.close()      # EOF
-        await simloop.settle()
-        await simloop.advance(1)
+        if case.get('end') == 'silence':
+            # nothing more arrives and the connection stays open: the read that cannot complete (next header, truncated
+            # header, body shorter than announced) must run into the read time-out and close the connection
+            # (every message the client itself sends on the connection pushes the read deadline one time-out further —
+            #  `_increase_read_timeout` — so the wait is counted per message written, as the code does)
+            out['read_timeout'] = conn.read_timeout
+            waited = 0
+            while not task.done() and waited <= writes[0]:
+                waited += 1
+                await simloop.advance((conn.read_timeout or 0) + 2)
+                await simloop.settle()
+            out['timeouts_waited'] = waited
+        else:
+            rw.close()      # EOF
+            await simloop.settle()
+            await simloop.advance(1)
         out['task_done'] = task.done()
         out['task_exc'] = None
         if task.done() and not task.cancelled():
@@ -211,7 +252,9 @@ def stream_case(rng: random.Random, table: list, m, p) -> dict:
         data = wc.build(m, p, table[idx], wc.gen_message(rng, table[idx])).serialize()
         tail = data[:rng.randrange(1, len(data))]
     elif r < 0.22:
-        tail = struct.pack('<I', rng.choice([0xFFFFFFFF, 1 << 20, 10])) + bytes(rng.randrange(256) for _ in range(rng.randrange(6)))
+        # lying length: the header announces more than ever arrives (from a few bytes to 4 GiB)
+        tail = struct.pack('<I', rng.choice([0xFFFFFFFF, 1 << 20, 10, 1 << 16, (1 << 18) + 1, 1 << 24, 1 << 31, 70000, 300])) + \
+            bytes(rng.randrange(256) for _ in range(rng.choice([0, 1, 3, 5, 9, 200])))
     plain = [f for _, f in frames] + ([tail] if tail else [])
     if obf:
         from aioslsk.protocol import obfuscation
@@ -235,7 +278,8 @@ def stream_case(rng: random.Random, table: list, m, p) -> dict:
         segs.append(k)
         left -= k
     return {'kind': kind, 'obf': obf, 'fam': fam, 'dir': d, 'stream': wire, 'segments': segs,
-            'frames': [(t, f.hex()) for t, f in frames], 'tail': tail.hex(), 'seg_mode': mode}
+            'frames': [(t, f.hex()) for t, f in frames], 'tail': tail.hex(), 'seg_mode': mode,
+            'end': 'silence' if rng.random() < (0.6 if tail else 0.2) else 'eof'}
 
 
 def expected_deliveries(case: dict, table, m) -> list:
@@ -587,6 +631,10 @@ class C02(Property):
                 res.nontrivial_keys.add(common.sha(case['frame'] + fam + d))
             if r.startswith('fatal'):
                 res.violations.append(Violation('C02-decoder-fatal', f'dispatcher raised a non-Exception: {r}', case, observed=r))
+            if r == 'HANG':
+                res.violations.append(Violation('C02-decoder-hang', f'parsing a frame of {len(fr)} bytes does not terminate '
+                                                f'(stopped by the harness after {DECODE_LIMIT:.0f} s)', case, observed=r))
+                continue
             if dt > 2.0:
                 res.violations.append(Violation('C02-decoder-work', f'decoding {len(fr)} bytes took {dt:.1f}s', case, observed=dt))
             if model is not None:
@@ -603,7 +651,8 @@ class C02(Property):
         bout = common.parallel_map(eval_stream, bcases, chunksize=8)
         bmodel = None
         if model_ok:
-            blines = [f'reader {1 if c["obf"] else 0} {c["fam"]} {c["dir"]} {wc.hexs(c["stream"])}' for c in bcases]
+            blines = [f'{"readerSilent" if c.get("end") == "silence" else "reader"} {1 if c["obf"] else 0} {c["fam"]} {c["dir"]} '
+                      f'{wc.hexs(c["stream"])}' for c in bcases]
             bmodel = common.run_driver(self.driver_file, blines)
         for k, (c, o) in enumerate(zip(bcases, bout)):
             res.evaluations += 1
@@ -618,7 +667,8 @@ class C02(Property):
                 res.violations.append(Violation('C02-harness-or-impl-error', o['exc'], case, observed=o['exc']))
                 continue
             close = o['close'][0] if o['close'] else None
-            impl_line = ' | '.join(o['delivered'] + ['C ' + {'EOF': 'eof', 'READ_ERROR': 'readError'}.get(close, str(close))])
+            impl_line = ' | '.join(o['delivered'] + ['C ' + {'EOF': 'eof', 'READ_ERROR': 'readError', 'TIMEOUT': 'timeout'}.get(close, str(close))])
+            res.count('b-end:' + c.get('end', 'eof') + (':tail' if c['tail'] else ''))
             # monitor
             exp = expected_deliveries(c, table, m)
             if o['delivered'] != exp:
@@ -632,7 +682,14 @@ class C02(Property):
                 res.violations.append(Violation('C02-reader-died', 'reader task ended while the connection stayed CONNECTED',
                                                 case, observed=o.get('task_exc')))
             if not o['task_done']:
-                res.violations.append(Violation('C02-reader-stuck', 'reader task still running after EOF', case))
+                if c.get('end') == 'silence':
+                    res.violations.append(Violation(
+                        'C02-reader-parked', f'the peer went silent ({"in the middle of a frame" if c["tail"] else "between frames"}): '
+                        f'{o.get("timeouts_waited")} x ({o.get("read_timeout")} s read time-out + 2 s) later the reader still waits and the connection is '
+                        f'{o["state"]} — it never gives up on a frame that does not complete', case, observed=o['state'],
+                        required='closed by the read time-out'))
+                else:
+                    res.violations.append(Violation('C02-reader-stuck', 'reader task still running after EOF', case))
             if len(o['close']) != 1:
                 res.violations.append(Violation('C02-close-count', f'CLOSED reported {len(o["close"])} times', case))
             if o['bystander'] != 'CONNECTED' or not o['registry_has_bystander']:
@@ -756,6 +813,9 @@ class C02(Property):
         if kind == 'frame':
             fr = b'' if case['frame'] == '-' else bytes.fromhex(case['frame'])
             r, dt, _ = eval_decode((table, case['family'], case['dir'], fr))
+            if r == 'HANG':
+                vs.append(Violation('C02-decoder-hang', 'parsing does not terminate', case))
+                return vs
             if r.startswith('fatal'):
                 vs.append(Violation('C02-decoder-fatal', r, case))
             if dt > 2.0:
@@ -790,6 +850,9 @@ class C02(Property):
                                     observed=o['delivered'], required=exp))
             if o.get('task_done') and o.get('state') == 'CONNECTED':
                 vs.append(Violation('C02-reader-died', 'reader ended, connection CONNECTED', case))
+            if not o.get('task_done') and c.get('end') == 'silence' and not o.get('exc'):
+                vs.append(Violation('C02-reader-parked', 'reader still waits after the read time-out, connection '
+                                    + str(o.get('state')), case))
         return vs
 
 
